@@ -75,6 +75,11 @@ class StoreAdapter:
             if a == "AddOrderLink":
                 h.add_order_link(nd[ev["sn"]], nd[ev["dn"]])
                 return {"k": "ok"}
+            if a == "SetMeta":
+                md = h[nd[ev["n"]]].metadata
+                md.clear()
+                md.update(dict(META[ev["m"]] or {}))
+                return {"k": "ok"}
             if a == "DeleteLink":
                 h.delete_link(nd[ev["sn"]].out(ev["so"]), nd[ev["dn"]].inp(ev["do"]))
                 return {"k": "ok"}
